@@ -15,6 +15,7 @@ INVARIANTS
     EchoIdentity
     WireIdentity
     StopDrains
+    BacklogSurvivesClose
     ClosedIsFinal
     ResponsesMatchRequests
     SnapshotPosition
